@@ -8,6 +8,7 @@
 #include <kernel/geometry/parti_2lvl.hpp>
 #include <kernel/geometry/parti_iterative.hpp>
 #include <kernel/util/dist.hpp>
+#include <kernel/util/random.hpp>
 
 using namespace vm;
 
@@ -70,7 +71,7 @@ template<class Shape_> vj::Value run_parti(const vj::Value& c)
     success = (part != nullptr);
     if(success) { plevel = part->get_level(); pre = int(plevel); graph = part->get_patches().clone(); }
   }
-  else if(kind == "iter")
+  else if(kind == "iter" || kind == "iterseed")
   {
     // documented usage: refine until the mesh has at least num_patches cells
     Index ne = ncoarse; const Index fac = Index(Geometry::Intern::StandardRefinementTraits<Shape_, dim>::count);
@@ -106,6 +107,26 @@ template<class Shape_> vj::Value run_parti(const vj::Value& c)
     Dist::Comm comm(Dist::Comm::world());
     Geometry::PartiIterative<MeshType> pi(bmesh, comm, Index(nreq), pa.get_int("tinit_ms", 0) * 1e-3, pa.get_int("tmut_ms", 0) * 1e-3);
     graph = pi.build_elems_at_rank();
+  }
+  else if(kind == "iterseed")
+  {
+    // the partitioning step of PartiIterative (one PartiIterativeIndividual = random centres + nearest-centre assignment,
+    // optionally mutated), driven by an explicitly seeded Random: PartiIterative itself seeds from time(), which makes
+    // its runs irreproducible; the graph is assembled exactly as PartiIterative::build_elems_at_rank does
+    Random rng((Random::SeedType)pa.get_int("seed", 1));
+    bmesh.fill_neighbors();
+    Geometry::Intern::PartiIterativeIndividual<Shape_, dim, double> indi(bmesh, rng, Index(nreq));
+    for(long long m(0); m < pa.get_int("mutations", 0); ++m) indi.mutate(bmesh, rng, 5);
+    const Index ne = bmesh.get_num_elements();
+    graph = Adjacency::Graph(Index(nreq), ne, ne);
+    Index* ptr = graph.get_domain_ptr(); Index* idx = graph.get_image_idx();
+    Index k = 0; ptr[0] = 0;
+    for(Index r(0); r < Index(nreq); ++r)
+    {
+      for(auto cell : indi._cells_per_patch.at(r)) { if(k < ne) idx[k] = cell; ++k; }
+      ptr[r + 1] = std::min(k, ne);
+    }
+    if(k != ne) { std::string w = "PartiIterativeIndividual assigned " + std::to_string(k) + " of " + std::to_string(ne) + " cells"; return vh::bad(w); }
   }
   else if(kind == "explicit")
   {
